@@ -289,6 +289,45 @@ func fieldByIndex(r rvalue, st *types.Struct, idx int) rvalue {
 	return out
 }
 
+// hostStructAccess logs a whole-struct read or write made through reflect on a struct that belongs to the
+// host program (a type of a harness package): copying such a struct while another goroutine assigns one of
+// its fields, or writing it back as a whole, races with that assignment.
+func (i *interpreter) hostStructAccess(fr *frame, r rvalue, write bool) {
+	if !i.cfg.TrackHostStructs || r.addr == nil {
+		return
+	}
+	n, ok := r.t.(*types.Named)
+	if !ok || n.Obj().Pkg() == nil || !strings.Contains(n.Obj().Pkg().Path(), "zz_verif") {
+		return
+	}
+	st, ok := n.Underlying().(*types.Struct)
+	if !ok {
+		return
+	}
+	l, ok := i.cellLoc[r.addr]
+	if !ok || l.name == "obj" {
+		l = i.locByName(fmt.Sprintf("host:%s#%d", n.Obj().Name(), len(i.cellLoc)), false)
+		i.cellLoc[r.addr] = l
+	}
+	kind := "read"
+	if write {
+		kind = "write"
+	}
+	i.logEvent(fr.th, kind, l.id, 0, l.name, fr)
+	if write {
+		// a whole-struct write also writes every field
+		for k := 0; k < st.NumFields(); k++ {
+			cell := &(*r.addr).(structure)[k]
+			fl, ok := i.cellLoc[cell]
+			if !ok || fl.name == "obj" {
+				fl = i.locByName(fmt.Sprintf("host:%s.%s#%d", n.Obj().Name(), st.Field(k).Name(), len(i.cellLoc)), false)
+				i.cellLoc[cell] = fl
+			}
+			i.logEvent(fr.th, "write", fl.id, 0, fl.name, fr)
+		}
+	}
+}
+
 // mapIterState stands for a *reflect.MapIter.
 type mapIterState struct {
 	m      *omap
@@ -963,7 +1002,12 @@ func (i *interpreter) reflectExternals() map[string]externalFn {
 			rSetMapIndex(rv(a[0]), rv(a[1]), rv(a[2]))
 			return nil
 		},
-		"(reflect.Value).Set": func(fr *frame, a []value) value { rSet(rv(a[0]), rv(a[1])); return nil },
+		"(reflect.Value).Set": func(fr *frame, a []value) value {
+			fr.i.hostStructAccess(fr, rv(a[1]), false)
+			fr.i.hostStructAccess(fr, rv(a[0]), true)
+			rSet(rv(a[0]), rv(a[1]))
+			return nil
+		},
 		"(reflect.Value).SetInt": func(fr *frame, a []value) value {
 			r := rv(a[0])
 			r.mustBeAssignable("reflect.Value.SetInt")
